@@ -492,6 +492,7 @@ fn cmd_show(id: &str, tier: Tier, job: u64) -> i32 {
         det_check: false,
         stop_on_fail: false,
         planlog: std::env::var("SIM_PLANLOG").ok().map(Into::into),
+        hb: None,
     };
     let _ = Dump(check.as_ref()).0;
     check.run_job(&mut r, tier, job, &mut ctx);
@@ -529,6 +530,7 @@ fn cmd_selftest(n: u64) -> i32 {
                 det_check: true,
                 stop_on_fail: false,
                 planlog: None,
+                hb: None,
             };
             check.run_job(&mut r, Tier::Quick, job, &mut ctx);
             let mut shapes: Vec<u64> = ctx.stats.trace_shapes.iter().cloned().collect();
